@@ -223,6 +223,14 @@ def _check_value(run, world, folder, rc, fam, mod, res):
     if not isinstance(exp, bool) or not isinstance(acc, bool):
         raise AnalysisError("%s: _expected/_error_acceptable do not fold to "
                             "booleans" % q)
+    if fam == "BitmapResponse":
+        # the bits of a garbled answer are not the unit's status: only the
+        # yes/no family reads a framing error as an answer (several units
+        # answering at once), a bitmap handed out with one is wrong data
+        ob("#garbled-bitmap-refused", acc is False,
+           "a bitmap response must not accept a framing error "
+           "(_error_acceptable is True): .value then hands out the bits of a "
+           "garbled frame instead of raising ResponseError", "err")
     if exp:
         ok = bool(vn) and all(o.kind == "raise" and t.exc_isa(o.val, MISSING)
                               for o in vn)
